@@ -94,7 +94,10 @@ def published_key_rules(prog, chk, pid):
 def header_rules(prog, chk, pid):
     P = lambda s: "%s.%s" % (pid, s)
     c = prog.cls("bec2format.crypto.PublicEccKey")
-    fi = prog.method(c.qualname, "create_from_raw_fmt")
+    # the conversions that run are the ones the registered key class resolves to: an override in the plug-in replaces the base-class method
+    reg = prog.cls("register_crypto_plugin.PublicEccKeyProxy")
+    r_ = reg.lookup("create_from_raw_fmt")
+    fi = r_[1] if r_ is not None and hasattr(r_[1], "node") else prog.method(c.qualname, "create_from_raw_fmt")
     ex = Exec(prog, policy=lambda e, f, d: False)
     res = ex.run(fi)
     where = "%s:%d" % (fi.file, fi.lineno)
@@ -119,7 +122,8 @@ def header_rules(prog, chk, pid):
             ok = good and hdr == want
             why = "header constant is not the 27-byte P-256 SubjectPublicKeyInfo prefix whose lengths fit a 64-byte raw point"
     chk.require(ok, P("raw-to-der-header"), fi.qualname, "create_from_der_fmt(<27-byte SPKI prefix> + raw_fmt)", where, "raw 64-byte points are wrapped with the exact P-256 SubjectPublicKeyInfo prefix (inner lengths 0x59 / 0x13 / 0x42, unused-bits 00, point marker 04)", why)
-    fi2 = prog.method(c.qualname, "to_raw_bin_fmt")
+    r2_ = reg.lookup("to_raw_bin_fmt")
+    fi2 = r2_[1] if r2_ is not None and hasattr(r2_[1], "node") else prog.method(c.qualname, "to_raw_bin_fmt")
     ex2 = Exec(prog, policy=lambda e, f, d: False)
     r2 = ex2.run(fi2)
     v = unsnap(r2.ret) if r2.ret is not None else None
